@@ -313,6 +313,21 @@ func scenarios() []*sched.Scenario {
 		w.shutdownAndWait()
 	})
 	// extreme priorities ("always first" / "always last"): orders whose difference does not fit an int
+	// read-only queries while the daemon runs must not disturb the shutdown sequence
+	add("query-running-workers-then-shutdown", false, func(w *world) {
+		_ = w.add(wspec{name: "a", order: 3, lateYields: 1})
+		_ = w.add(wspec{name: "b", order: 2, lateYields: 2})
+		_ = w.add(wspec{name: "c", order: 1})
+		w.d.Start()
+		vrt.Settle()
+		got := w.d.GetRunningBackgroundWorkers()
+		if len(got) != 3 {
+			vrt.Fail("running-workers", "GetRunningBackgroundWorkers returned %v with three workers running", got)
+		}
+		_ = w.d.GetRunningBackgroundWorkers()
+		_ = w.d.GetRunningBackgroundWorkers()
+		w.shutdownAndWait()
+	})
 	add("extreme-orders", false, func(w *world) {
 		_ = w.add(wspec{name: "last", order: math.MinInt})
 		_ = w.add(wspec{name: "api", order: 1, lateYields: 2})
@@ -335,7 +350,7 @@ func main() {
 	cli.Main(&cli.Property{
 		ID: "C20", Level: "model_checking", Scenarios: scenarios(),
 		QuickBound: 3, ThoroughBound: 4, Cache: true, Delay: true, QuickSecs: 45, ThoroughSecs: 900,
-		RaceHB: &cli.RaceHB{QuickBound: 1, ThoroughBound: 2},
+		RaceHB:      &cli.RaceHB{QuickBound: 1, ThoroughBound: 2},
 		Rule:        "every interleaving with at most b deviations (delay bounding; the order in which Start walks the worker map is an owned choice) of worker goroutines, BackgroundWorker, Start, Run, Shutdown and ShutdownAndWait callers on the real daemon with virtual contexts; oracle on the recorded log of worker start/return and context-cancel events; distinct = distinct (outcome, observation log)",
 		Assumptions: []string{"vcontext models context.WithCancel faithfully (cancellation closes Done through a visible operation)", "cancelling the context of a worker that has already returned is unobservable and not judged"},
 		NotReached:  []string{"more than 4 workers", "worker panics"},
